@@ -9,9 +9,10 @@ use compute::linalg::{
 
 // ------------------------------------------------------------------------------------------------
 // input classes
-const CLASSES: [&str; 14] = [
+const CLASSES: [&str; 15] = [
     "dense-real", "integer", "singular", "rank-deficient", "zero-leading-pivots", "permutation", "cyclic-shift",
     "spd-real", "spd-integer", "indefinite-posdiag", "special-values", "graded", "lower-triangular", "upper-triangular",
+    "extreme-scale-symmetric",
 ];
 
 fn perm(r: &mut Rng, n: usize) -> Vec<usize> {
@@ -80,6 +81,13 @@ fn gen_matrix(r: &mut Rng, n: usize, class: usize) -> Vec<f64> {
         }
         11 => { // rows graded over many orders of magnitude
             for i in 0..n { let s = (10.0f64).powi(r.range(-8, 8) as i32); for j in 0..n { a[i * n + j] = s * r.uniform(-1.0, 1.0); } }
+        }
+        14 => { // symmetric, positive diagonal, magnitudes 1e-300 .. 1e300 entry by entry: the elimination overflows / underflows (inf, 0 * inf = NaN pivots)
+            for i in 0..n { for j in 0..=i {
+                let m = (10.0f64).powi(r.range(-300, 300) as i32) * r.uniform(1.0, 10.0);
+                let v = if i == j { m } else if r.coin(0.3) { 0.0 } else if r.coin(0.5) { m } else { -m };
+                a[i * n + j] = v; a[j * n + i] = v;
+            }}
         }
         12 => { for i in 0..n { for j in 0..=i { a[i * n + j] = r.uniform(-3.0, 3.0); } if r.coin(0.85) && a[i * n + i].abs() < 0.25 { a[i * n + i] = 1.5; } } if n > 0 && r.coin(0.1) { let i = r.below(n as u64) as usize; a[i * n + i] = 0.0; } }
         _ => { for i in 0..n { for j in i..n { a[i * n + j] = r.uniform(-3.0, 3.0); } if r.coin(0.85) && a[i * n + i].abs() < 0.25 { a[i * n + i] = -1.5; } } if n > 0 && r.coin(0.1) { let i = r.below(n as u64) as usize; a[i * n + i] = 0.0; } }
@@ -305,7 +313,7 @@ pub fn gen(tier: &str, seed: u64, outdir: &str) {
         }
     }
     cs.write(outdir, if thorough { 60 } else { 150 },
-             "14 input classes (dense, integer, singular, rank-deficient, zero leading block, (scaled) permutation, every-column-pivots-on-next-row, SPD real/integer, symmetric indefinite with positive diagonal, special values NaN/inf/-0/subnormal/huge, graded rows, lower/upper triangular) x every order 1..12 (thorough: 6 matrices each and orders 13..32), each matrix seen through every entry point (slice and Matrix forms of lu, lu_solve, det, lu_det, solve, cholesky, cholesky_solve, forward/backward substitution, is_symmetric, is_positive_definite); every permutation of 0..n (n <= 5 quick, 7 thorough) and random permutations through ipiv_parity; empty slices; a malformed stream (non-square lengths, wrong right-hand-side lengths, bad pivot vectors, non-square / non-triangular Matrix receivers). Non-trivial = order >= 2 and (LU family: at least one row swap; Cholesky family / substitutions / predicates: order >= 2), a non-identity permutation, a panic in the malformed stream; distinct by hash of the case term");
+             "15 input classes (extreme-scale symmetric 1e-300..1e300, dense, integer, singular, rank-deficient, zero leading block, (scaled) permutation, every-column-pivots-on-next-row, SPD real/integer, symmetric indefinite with positive diagonal, special values NaN/inf/-0/subnormal/huge, graded rows, lower/upper triangular) x every order 1..12 (thorough: 6 matrices each and orders 13..32), each matrix seen through every entry point (slice and Matrix forms of lu, lu_solve, det, lu_det, solve, cholesky, cholesky_solve, forward/backward substitution, is_symmetric, is_positive_definite); every permutation of 0..n (n <= 5 quick, 7 thorough) and random permutations through ipiv_parity; empty slices; a malformed stream (non-square lengths, wrong right-hand-side lengths, bad pivot vectors, non-square / non-triangular Matrix receivers). Non-trivial = order >= 2 and (LU family: at least one row swap; Cholesky family / substitutions / predicates: order >= 2), a non-identity permutation, a panic in the malformed stream; distinct by hash of the case term");
 }
 
 // ------------------------------------------------------------------------------------------------
@@ -565,6 +573,18 @@ pub fn oracle(tier: &str, seed: u64) -> (u64, Vec<Finding>) {
             match catch(|| cholesky(&a3)) { Ok(l) => out.push(Finding { class: if finite(&l) { "cholesky:accepts-input-that-is-not-positive-definite".into() } else { "cholesky:nonfinite-factor-for-input-that-is-not-positive-definite".into() }, what: format!("cholesky returned a factor (finite: {}) for a symmetric matrix with a negative 2x2 principal minor or a non-positive diagonal entry", finite(&l)), input: inp.clone() }), Err(_) => {} }
             match catch(|| try_cholesky(&a3)) { Ok(Some(l)) => out.push(Finding { class: "try_cholesky:accepts-input-that-is-not-positive-definite".into(), what: format!("try_cholesky returned Some (finite: {})", finite(&l)), input: inp.clone() }), Ok(None) => {}, Err(e) => out.push(Finding { class: "try_cholesky:panics-on-symmetric-input".into(), what: e, input: inp.clone() }) }
             match catch(|| mk(&a3, n3, n3).cholesky().data.v.clone()) { Ok(l) => out.push(Finding { class: if finite(&l) { "Matrix::cholesky:accepts-input-that-is-not-positive-definite".into() } else { "Matrix::cholesky:nonfinite-factor-for-input-that-is-not-positive-definite".into() }, what: format!("Matrix::cholesky returned a factor (finite: {})", finite(&l)), input: inp.clone() }), Err(_) => {} }
+        }
+        // (g1) at extreme scales (overflowing / underflowing elimination): whatever comes back as a factor is lower triangular, finite, with a positive
+        //      diagonal -- a pivot that is not a positive number (negative, zero, NaN from 0 * inf) must lead to rejection, never into a factor
+        {
+            let n4 = 2 + r.below(5) as usize;
+            let a4 = gen_matrix(&mut r, n4, 14);
+            let inp = format!("n={} a={}", n4, json_floats(&a4));
+            tried += 3; crumb(&format!("cholesky / try_cholesky / Matrix::cholesky at extreme scales {}", inp));
+            let bad = |l: &[f64]| !(l.len() == n4 * n4 && finite(l) && (0..n4).all(|i| l[i * n4 + i] > 0.0 && (i + 1..n4).all(|j| l[i * n4 + j] == 0.0)));
+            if let Ok(Some(l)) = catch(|| try_cholesky(&a4)) { if bad(&l) { out.push(Finding { class: "try_cholesky:factor-not-finite-lower-triangular-positive-diagonal".into(), what: format!("try_cholesky returned Some({:?})", l), input: inp.clone() }); } }
+            if let Ok(l) = catch(|| cholesky(&a4)) { if bad(&l) { out.push(Finding { class: "cholesky:factor-not-finite-lower-triangular-positive-diagonal".into(), what: format!("cholesky returned {:?}", l), input: inp.clone() }); } }
+            if let Ok(l) = catch(|| mk(&a4, n4, n4).cholesky().data.v.clone()) { if bad(&l) { out.push(Finding { class: "Matrix::cholesky:factor-not-finite-lower-triangular-positive-diagonal".into(), what: format!("Matrix::cholesky returned {:?}", l), input: inp.clone() }); } }
         }
         // (g) rejection: non-symmetric input to cholesky, wrong right-hand-side lengths, non-square slices
         if it % 5 == 0 {
